@@ -141,6 +141,11 @@ class _Expr(ast.NodeTransformer):
             node.keywords = []
         if d in ("list", "tuple") and len(node.args) == 1 and isinstance(node.args[0], (ast.ListComp,)) and not node.keywords:
             return node.args[0] if d == "list" else node
+        if d == "isinstance" and len(node.args) == 2 and isinstance(node.args[1], ast.Tuple) and len(node.args[1].elts) >= 2 and not node.keywords \
+                and isinstance(node.args[0], (ast.Name, ast.Attribute)):
+            # isinstance(x, (A, B)) == isinstance(x, A) or isinstance(x, B)
+            return ast.copy_location(ast.BoolOp(op=ast.Or(), values=[
+                ast.Call(func=ast.Name(id="isinstance", ctx=ast.Load()), args=[copy.deepcopy(node.args[0]), t], keywords=[]) for t in node.args[1].elts]), node)
         return _getattr_const(node)
 
     def visit_Raise(self, node):
@@ -152,6 +157,26 @@ class _Expr(ast.NodeTransformer):
 
     def visit_JoinedStr(self, node):
         self.generic_visit(node)
+        # f"{'X'} y" == "X y": constant string pieces are folded into the literal text
+        parts = []
+        for v in node.values:
+            if isinstance(v, ast.FormattedValue) and isinstance(v.value, ast.Constant) and isinstance(v.value.value, str) \
+                    and v.conversion == -1 and v.format_spec is None:
+                v = ast.Constant(value=v.value.value)
+            if isinstance(v, ast.Constant) and isinstance(v.value, str) and parts and isinstance(parts[-1], ast.Constant):
+                parts[-1] = ast.Constant(value=parts[-1].value + v.value)
+            else:
+                parts.append(v)
+        if all(isinstance(v, ast.Constant) for v in parts):
+            return ast.copy_location(ast.Constant(value="".join(v.value for v in parts)), node)
+        node.values = parts
+        return node
+
+    def visit_BinOp(self, node):
+        self.generic_visit(node)
+        if isinstance(node.op, ast.Add) and isinstance(node.left, ast.Constant) and isinstance(node.right, ast.Constant) \
+                and isinstance(node.left.value, str) and isinstance(node.right.value, str):
+            return ast.copy_location(ast.Constant(value=node.left.value + node.right.value), node)
         return node
 
 
@@ -574,6 +599,51 @@ def _mutated_names(fnode):
             if isinstance(b, ast.Name):
                 out.add(b.id)
     return out
+
+
+def _type_test(e):
+    """isinstance / callable tests on plain names, combined with and / or / not: depends only on which objects the names are
+    bound to, which no call can change"""
+    if isinstance(e, ast.BoolOp):
+        return all(_type_test(v) for v in e.values)
+    if isinstance(e, ast.UnaryOp) and isinstance(e.op, ast.Not):
+        return _type_test(e.operand)
+    if isinstance(e, ast.Call) and isinstance(e.func, ast.Name) and e.func.id in ("isinstance", "callable", "issubclass") and not e.keywords \
+            and e.args and isinstance(e.args[0], ast.Name):
+        return all(isinstance(n, (ast.Name, ast.Attribute, ast.Tuple, ast.expr_context)) for a in e.args[1:] for n in ast.walk(a))
+    return False
+
+
+def _subst_type_tests(fnode):
+    """t = isinstance(x, A) or ...  used anywhere later: substituted when x and t are bound exactly once (parameters count)"""
+    params = {a.arg for a in fnode.args.posonlyargs + fnode.args.args + fnode.args.kwonlyargs}
+    changed = True
+    rounds = 0
+    while changed and rounds < 10:
+        changed = False
+        rounds += 1
+        for block in _blocks(fnode):
+            for s in list(block):
+                if isinstance(s, ast.Assign) and len(s.targets) == 1 and isinstance(s.targets[0], ast.Name) and _type_test(s.value):
+                    name = s.targets[0].id
+                    if name in params or len(_stores(fnode, name)) != 1:
+                        continue
+                    subjects = {n.id for n in ast.walk(s.value) if isinstance(n, ast.Name) and isinstance(n.ctx, ast.Load)} - {"isinstance", "callable", "issubclass"}
+                    locals_rebound = [o for o in subjects if len(_stores(fnode, o)) > (0 if o in params else 1)]
+                    if locals_rebound:
+                        continue
+                    uses = _uses(fnode, name)
+                    later = [u for st in block[block.index(s) + 1:] for u in _uses(st, name)]
+                    if not uses or len(later) != len(uses):
+                        continue
+                    for u in uses:
+                        _replace(fnode, u, s.value)
+                    block.remove(s)
+                    changed = True
+                    break
+            if changed:
+                break
+    return fnode
 
 
 def _subst_pure_multiuse(fnode):
@@ -1560,6 +1630,7 @@ def _canon_once(fnode):
     f = _dead_stores(f)
     f = _forward_subst(f)
     f = _subst_pure_multiuse(f)
+    f = _subst_type_tests(f)
     f = _subst_attr_chain(f)
     f.body = _loop_to_comp(f.body)
     f = _forward_subst(f)
